@@ -178,10 +178,16 @@ def translate_expression(expr, env: Env) -> TExp:  # noqa: C901
             types = []
             values = []
             for x in expr.value.elts:  # type: ignore
+                if isinstance(x.value, int) and x.value < 0:  # type: ignore
+                    raise exceptions.ExpressionNotHandledException(expr)
                 t, e = const_to_qtype(x.value)  # type: ignore
                 types.append(t)
                 values.append(e)
             return (Tuple[tuple(types)], values)  # type: ignore
+
+        # Types are unsigned: a negative constant has no encoding
+        if isinstance(expr.value, (int, float)) and expr.value < 0:
+            raise exceptions.ExpressionNotHandledException(expr)
 
         q_value = const_to_qtype(expr.value)
 
